@@ -105,10 +105,10 @@ func (a *agg) addIO(s map[string]interface{}) {
 }
 
 var ioRules = map[string]string{
-	"C14": "Cases are GenerateKey calls against the simulated entropy device under a fault plan (fragmentation, stalls, failure offset x kind x with/without data, nil reader = swapped crypto/rand.Reader) and accessor scripts (Public/Seed/Equal/scribble/regenerate) checked step by step against a model key. The enumerated part covers the complete fault space of one 32-byte ReadFull over a fixed fragmentation family. Signature = (nil reader, failure offset, kind, with-data, fragmentation shape) or the accessor step string; non-trivial = a device fault fired, the nil-reader path was taken, or the script has >= 3 steps.",
-	"C06": "Cases are VerifyBatch calls (sizes 0..200/300, every entry kind of damage at biased positions, all option sets, cancelling pairs, torsion and mixed-order entries) against the simulated entropy device (fragmentation, stalls, failures, degenerate content only for all-valid batches); oracle = the library's single verifier per entry. The enumerated part fails the device at every measured read boundary of a ladder of batch shapes. Signature = (size class, fallback-chunk count, bad-position classes, option class, fault-plan shape, nil reader, error); non-trivial = batch of >= 4 entries (reaches the batch equation).",
-	"C17": "Same simulated VerifyBatch executions as C06, judged by the guarded fallback hook: no fallback range may consist only of individually valid entries, under any entropy content (uniform, zero, ones, equal randomisers, sparse, ramp, one bit, small) and any fragmentation. Signature as C06; non-trivial = batch of >= 4 entries.",
-	"C13": "Cases are single calls with generated argument shapes (nil/short/long keys, signatures, seeds, digests; all hash selectors; contexts 0..1000 bytes; aliased buffers) and VerifyBatch calls with malformed entries, skewed counts and failing devices; every argument lives in a canary-guarded array hashed before and after. Signature = (function, length overrides, option class, aliasing, entry kind, outcome class); non-trivial = some argument deviates from the well-formed shape or a device plan is attached.",
+	"C14": "Cases are GenerateKey calls against the simulated entropy device under a fault plan (fragmentation, stalls, failure offset x kind {EOF, unexpected EOF, private error, EAGAIN, EINTR, deadline} x with/without data x sticky/recovering, nil reader = swapped crypto/rand.Reader) and accessor scripts (Public/Seed/Equal/scribble/regenerate) checked step by step against a model key. The enumerated part covers the complete fault space of one 32-byte ReadFull over a fixed fragmentation family. Signature = (nil reader, failure offset, kind, with-data, fragmentation shape) or the accessor step string; non-trivial = a device fault fired, the nil-reader path was taken, or the script has >= 3 steps.",
+	"C06": "Cases are VerifyBatch calls (sizes 0..200/300, every kind of damaged entry at biased positions, one damaged entry repeated at the heads of later chunks, all option sets incl. one long-lived Options value re-targeted between calls, cancelling pairs, torsion, mixed-order and ZIP-215-only entries, boundary-scalar batches) against the simulated entropy device (fragmentation, stalls, failures, degenerate content only for all-valid batches); oracle = the library's single verifier per entry. The enumerated part fails the device at every measured read boundary of a ladder of batch shapes. Signature = (size class, fallback-chunk count, bad-position classes, option class, fault-plan shape, nil reader, error); non-trivial = batch of >= 4 entries (reaches the batch equation).",
+	"C17": "Same simulated VerifyBatch executions as C06, judged by the guarded fallback hook: no fallback range may consist only of individually valid entries, under any entropy content that does not fail (uniform, zero, ones, equal randomisers, sparse, ramp, one bit, small, all-one randomisers) and any fragmentation; one case in five is a boundary-scalar batch (ZIP-215-valid entries with prescribed scalar halves whose running sum crosses carry/borrow boundaries of the modular reduction, randomisers all 1). Signature as C06; non-trivial = batch of >= 4 entries.",
+	"C13": "Cases are single calls with generated argument shapes (nil/short/long keys, signatures, seeds, digests; all hash selectors; contexts 0..1000 bytes; aliased buffers) and VerifyBatch calls with malformed entries, skewed counts and failing devices; every argument lives in canary-filled, read-only mmap pages with 80 bytes of spare capacity (a write faults at the writing instruction) and is hashed before and after. Signature = (function, length overrides, option class, aliasing, entry kind, outcome class); non-trivial = some argument deviates from the well-formed shape or a device plan is attached.",
 	"C02": "Cases are signing calls (pure/ctx/ph, three ways of passing options, message lengths around SHA-512 block borders, special seeds) executed under a tripwire device, a failing device, a nil reader (swapped crypto/rand.Reader) and again, compared with each other and with crypto/ed25519 of the toolchain; plus GenerateKey against the reference derivation. Signature = (function, hash, context length, option form, message length, seed kind, refused); every case is non-trivial.",
 }
 
